@@ -14,7 +14,7 @@ use super::error::{Result, SvmError};
 use super::permutable_kernel::{PermutableKernel, PermutableKernelOneClass};
 use super::solver_smo::SolverState;
 use super::SolverParams;
-use super::{Float, Svm, SvmValidParams};
+use super::{Float, SeparatingHyperplane, Svm, SvmValidParams};
 use linfa_kernel::Kernel;
 
 fn calibrate_with_platt<F: Float, D: Data<Elem = F>, T: AsSingleTargets<Elem = bool>>(
@@ -157,6 +157,10 @@ pub fn fit_nu<F: Float>(
         .collect();
     res.rho /= r;
     res.obj /= r * r;
+    // the pre-combined hyperplane of a linear kernel was built from the unscaled coefficients
+    if let SeparatingHyperplane::Linear(ref mut hyperplane) = res.sep_hyperplane {
+        hyperplane.mapv_inplace(|x| x / r);
+    }
 
     res
 }
